@@ -3,8 +3,12 @@ package props
 import (
 	"fmt"
 	"math/rand"
+	"net/http"
+	"net/url"
 	"regexp"
 	"strings"
+	"sync"
+	"sync/atomic"
 	"time"
 
 	"github.com/zitadel/saml/pkg/provider"
@@ -157,17 +161,100 @@ func fwdElement(rng *rand.Rand) (string, string, bool) {
 	return strings.Join(parts, ";"), host, has
 }
 
+// c19Concurrent: many requests with different hosts derive their issuer at the same time from ONE issuer function (and
+// one provider): each gets the issuer of its own host.
+func c19Concurrent(r *core.Run, idx int, rng *rand.Rand) {
+	const wl = "derived_issuers_concurrently"
+	insecure := idx%3 == 0
+	path := []string{"", "/saml", "saml/v2", "/x/y/"}[rng.Intn(4)]
+	fwd := idx%2 == 1
+	factory := provider.IssuerFromHost(path)
+	if fwd {
+		factory = provider.IssuerFromForwardedOrHost(path)
+	}
+	issuerOf, err := factory(insecure)
+	if err != nil {
+		panic(err)
+	}
+	scheme := "https://"
+	if insecure {
+		scheme = "http://"
+	}
+	wantPath := path
+	if wantPath != "" && !strings.HasPrefix(wantPath, "/") {
+		wantPath = "/" + wantPath
+	}
+	o := env.Opts{HostPath: path, Insecure: insecure, UseFwd: fwd}
+	e, err := env.New(o)
+	if err != nil {
+		panic(err)
+	}
+	var wg sync.WaitGroup
+	var mu sync.Mutex
+	var firstBad string
+	var checked atomic.Int64
+	for g := 0; g < 8; g++ {
+		wg.Add(1)
+		go func(g int) {
+			defer wg.Done()
+			host := fmt.Sprintf("tenant-%02d%s.idp.example", g, strings.Repeat("x", g*3))
+			if g%3 == 2 {
+				host += ":8443"
+			}
+			want := scheme + host + wantPath
+			rq := &http.Request{Host: host, Header: http.Header{}, URL: &url.URL{Path: "/other", Scheme: "ftp"}}
+			if fwd {
+				rq.Host = "lb.internal"
+				rq.Header.Set("Forwarded", "for=192.0.2.1;host=\""+host+"\"")
+			}
+			for k := 0; k < 4000; k++ {
+				got := issuerOf(rq)
+				checked.Add(1)
+				if got != want {
+					mu.Lock()
+					if firstBad == "" {
+						firstBad = fmt.Sprintf("a request for host %s got the issuer %q (expected %q) while requests for other hosts were served", host, got, want)
+					}
+					mu.Unlock()
+					return
+				}
+				if k%400 == 0 {
+					mv := fetchMeta(e, env.PathMetadata, rq.Host, rq.Header)
+					if wantE := strings.TrimSuffix(want, "/") + "/metadata"; mv.Err == "" && mv.EntityID != wantE {
+						mu.Lock()
+						if firstBad == "" {
+							firstBad = fmt.Sprintf("the metadata served for host %s has entityID %q (expected %q)", host, mv.EntityID, wantE)
+						}
+						mu.Unlock()
+						return
+					}
+				}
+			}
+		}(g)
+	}
+	wg.Wait()
+	r.Eval(fmt.Sprintf("concurrent|%d", idx))
+	r.Count("issuers_derived_concurrently", checked.Load())
+	if firstBad != "" {
+		r.Violate(core.Violation{Clause: "derived_issuer", Class: fmt.Sprintf("concurrent|forwarded=%v|insecure=%v|path=%q", fwd, insecure, path), Reason: firstBad, Workload: wl, Index: idx})
+	}
+}
+
 func c19Derived(r *core.Run, idx int, rng *rand.Rand) {
 	const wl = "derived_issuers"
 	insecure := rng.Intn(3) == 0
 	path := []string{"", "/", "/saml", "saml", "a/b", "/x/y/", "/with%20esc"}[rng.Intn(7)]
-	mode := []string{"host", "forwarded", "custom_headers"}[rng.Intn(3)]
+	mode := []string{"host", "forwarded", "custom_headers", "empty_header_list"}[rng.Intn(4)]
 	o := env.Opts{HostPath: path, Insecure: insecure}
 	var headers []string
 	switch mode {
 	case "forwarded":
 		o.UseFwd = true
 		headers = []string{"Forwarded"}
+	case "empty_header_list":
+		// forwarding headers "configured" as an empty list: none is configured, the request Host decides
+		o.UseFwd = true
+		o.FwdHeaders = []string{}
 	case "custom_headers":
 		o.UseFwd = true
 		headers = [][]string{{"X-Original-Forwarded", "Forwarded"}, {"x-custom-fwd"}, {"Forwarded", "X-Second"}}[rng.Intn(3)]
@@ -198,7 +285,7 @@ func c19Derived(r *core.Run, idx int, rng *rand.Rand) {
 			hdr["X-Forwarded-Proto"] = []string{"http"}
 			hdr["X-Forwarded-For"] = []string{"198.51.100.1"}
 		}
-		if mode == "host" && rng.Intn(2) == 0 {
+		if (mode == "host" || mode == "empty_header_list") && rng.Intn(2) == 0 {
 			hdr["Forwarded"] = []string{"host=evil-fwd.example;proto=http"}
 		}
 		for _, h := range headers {
@@ -359,10 +446,12 @@ func init() {
 			r.Require("forwarded_host_used", 200)
 			r.Require("malformed_header_sets_checked", 100)
 			r.Require("shared_factory_probes", 500)
+			r.Require("issuers_derived_concurrently", 100000)
 			return []core.Workload{
 				{Name: "static_issuers", N: c.Pick(100, 1250), Fn: c19Static},
 				{Name: "derived_issuers", N: c.Pick(200, 2000), Fn: c19Derived},
 				{Name: "shared_factory", N: c.Pick(100, 1000), Fn: c19SharedFactory},
+				{Name: "derived_issuers_concurrently", N: c.Pick(12, 120), Fn: c19Concurrent},
 			}
 		},
 	})
